@@ -24,7 +24,9 @@ pub struct C01;
 pub enum KRing { ZBig, Zi64, Q, F2, F2c, F3 }
 
 #[derive(Clone, Copy, Debug, Serialize, Deserialize, PartialEq)]
-pub enum Route { Total, Bigraded, DMatrix }
+pub enum Route { Total, Bigraded, DMatrix,
+    /// the complex composed from two separately built tangle complexes (crossings split at the given position), each with the degree shift of its own crossings
+    Compose(u16) }
 
 #[derive(Clone, Debug, Serialize, Deserialize)]
 pub struct Case { pub d: DSpec, pub ring: KRing, pub h: i8, pub t: i8, pub reduced: bool, pub threads: u8, pub route: Route }
@@ -92,6 +94,50 @@ fn run_case(c: &Case, tier: Tier) -> Chk<Pass> {
         if matches!(c.ring, KRing::Zi64 | KRing::Q) && is_arith_overflow(&m) { return discard("machine-overflow") } return bad(format!("{what}: library panicked: {m}")) } } } }
 
     match (c.route, c.ring) {
+        (Route::Compose(split), _) => {
+            use yui_kh::kh::internal::v2::{builder::TngComplexBuilder, tng_complex::TngComplex};
+            if dg.ncross() > tier.pick(6, 7) || dg.nfree() > 0 || dg.x.is_empty() { return discard("compose-route-size-cap") }
+            let o = dg.orient(0).map_err(Bad::Fail)?;
+            let n = dg.n();
+            let cut = (split as usize * (n + 1)) >> 16;
+            let shift_of = |r: std::ops::Range<usize>| -> (isize, isize) { let (mut p, mut m) = (0isize, 0isize); for i in r { match o.signs[i] { Some(1) => p += 1, Some(-1) => m += 1, _ => {} } } (-m, p - 2 * m) };
+            let (sa, sb) = (shift_of(0..cut), shift_of(cut..n));
+            let sa = if reduced { (sa.0, sa.1 + 1) } else { sa };
+            let base_pt = if reduced { link.first_edge() } else { None };
+            let xs: Vec<yui_link::Crossing> = link.data().clone();
+            let (lt, lb): (LibTot, Option<LibBi>) = lib!({
+                let mut a = TngComplex::<BigInt>::init(&hb, &tb, sa, base_pt);
+                for x in &xs[..cut] { a.append(x); }
+                let mut b = TngComplex::<BigInt>::init(&hb, &tb, sb, None);
+                for x in &xs[cut..] { b.append(x); }
+                a.connect(b);
+                let mut bl = TngComplexBuilder::from(a);
+                bl.deloop_all(false); bl.eliminate_all(); bl.finalize();
+                let kh = bl.into_kh_complex().homology();
+                let tot: LibTot = kh.h_range().map(|i| (i, (kh[i].rank(), kh[i].tors().iter().map(big_of).collect()))).filter(|(_, v): &(isize, (usize, Vec<BigInt>))| v.0 > 0 || !v.1.is_empty()).collect();
+                let bi: Option<LibBi> = if (h, t) == (0, 0) { let g = kh.into_bigraded();
+                    Some(g.support().map(|idx| ((idx.0, idx.1), (g[(idx.0, idx.1)].rank(), g[(idx.0, idx.1)].tors().iter().map(big_of).collect::<Vec<_>>()))).filter(|(_, v)| v.0 > 0 || !v.1.is_empty()).collect()) } else { None };
+                (tot, bi)
+            });
+            let primes = primes_for(tier, lt.values().flat_map(|v| v.1.iter().cloned()));
+            let refh = total_z(&cube, &hb, &tb, &primes).map_err(|e| Bad::Discard(e))?;
+            let degs: BTreeSet<isize> = lt.keys().cloned().chain(refh.keys().cloned()).collect();
+            for i in degs {
+                let (lr, ltor) = lt.get(&i).cloned().unwrap_or((0, vec![]));
+                let rf = refh.get(&i).cloned().unwrap_or_default();
+                if !ltor.is_empty() { has_tors = true; }
+                if let Err(e) = same_group(lr, &ltor, &rf, &primes) { return bad(format!("{what}: composed at {cut} of {n} crossings (shifts {:?} + {:?}): degree {i}: {e}", sa, sb)) }
+            }
+            if let Some(lb) = lb {
+                let refb = bigraded_z(&cube, &primes).map_err(|e| Bad::Discard(e))?;
+                let keys: BTreeSet<(isize, isize)> = lb.keys().cloned().chain(refb.keys().cloned()).collect();
+                for k in keys {
+                    let (lr, ltor) = lb.get(&k).cloned().unwrap_or((0, vec![]));
+                    let rf = refb.get(&k).cloned().unwrap_or_default();
+                    if let Err(e) = same_group(lr, &ltor, &rf, &primes) { return bad(format!("{what}: composed at {cut} of {n} crossings (shifts {:?} + {:?}): bidegree {:?}: {e}", sa, sb, k)) }
+                }
+            }
+        }
         (Route::DMatrix, _) => {
             let (dm, qs) = lib!(lib_dmatrices(&link, &hb, &tb, reduced));
             // homology of the library's complex by the harness's own elimination, compared with the cube
@@ -189,7 +235,7 @@ fn run_case(c: &Case, tier: Tier) -> Chk<Pass> {
     }
     let ncomp = dg.components().map(|c| c.len()).unwrap_or(0);
     let nt = dg.ncross() >= 2 && (has_tors || ncomp >= 2 || (h, t) != (0, 0) || reduced);
-    Ok(Pass::new().nt(nt).label(format!("ring:{:?}", c.ring)).label(format!("route:{:?}", c.route)).label(format!("crossings:{}", dg.ncross()))
+    Ok(Pass::new().nt(nt).label(format!("ring:{:?}", c.ring)).label(format!("route:{}", match c.route { Route::Compose(_) => "Compose".to_string(), r => format!("{:?}", r) })).label(format!("crossings:{}", dg.ncross()))
         .label_if(has_tors, "torsion").label_if(ncomp >= 2, "multi-component").label_if((h, t) != (0, 0), "ht!=0").label_if(reduced, "reduced").label_if(dg.nfree() > 0, "over-only-component"))
 }
 
@@ -201,7 +247,7 @@ impl Prop for C01 {
     type Case = Case;
     const ID: &'static str = "C01";
     fn rule() -> String {
-        "case = (diagram: table link / braid closure / torus link / corner case (empty, unknot, kinks, unlinks, Hopf) with 0..2 modifications (kinks of all four kinds, a circle laid over or under an edge, split union, connected sum, renumbering, crossing reordering, orientation reversal, mirror); ring in {BigInt, i64, Ratio<i64>, FF2, FF<2>, FF<3>}; (h,t) in [-3,3]^2 weighted to (0,0),(1,0),(0,1); reduced (t = 0); thread count in {1,2,4,16}; route in {KhHomology (total), KhComplexBigraded.homology (h=t=0), KhComplex.d_matrix + own elimination}). \
+        "case = (diagram: table link / braid closure / torus link / corner case (empty, unknot, kinks, unlinks, Hopf) with 0..2 modifications (kinks of all four kinds, a circle laid over or under an edge, split union, connected sum, renumbering, crossing reordering, orientation reversal, mirror); ring in {BigInt, i64, Ratio<i64>, FF2, FF<2>, FF<3>}; (h,t) in [-3,3]^2 weighted to (0,0),(1,0),(0,1); reduced (t = 0); thread count in {1,2,4,16}; route in {KhHomology (total), KhComplexBigraded.homology (h=t=0), KhComplex.d_matrix + own elimination, and (one case in 11, <= 6 crossings) the planar-algebra composition itself: two TngComplex pieces built separately from a generated split of the crossing list, each with the degree shift of its own crossings, joined by TngComplex::connect, simplified by the builder and read as total and (h=t=0) bigraded homology over Z}). \
          oracle: the harness's own cube of resolutions (all 2^n states, Frobenius algebra X^2 = hX + t) with homology by its own sparse elimination over F_q and Z/p^K: free rank and p-primary torsion exponents per degree / bidegree over Z (p in {2,3,5,7} (all p <= 31 thorough) and the prime factors of the reported orders, plus the dimension over F_37.. as a bound for other primes), dimensions over Q, F2, F3. \
          non-trivial = >= 2 crossings and (torsion, or >= 2 components, or (h,t) != (0,0), or reduced)".into()
     }
@@ -212,8 +258,10 @@ impl Prop for C01 {
     fn strategy(tier: Tier) -> BoxedStrategy<Case> {
         let maxc = cross_cap(tier, true);
         let ring = prop_oneof![4 => Just(KRing::ZBig), 1 => Just(KRing::Zi64), 2 => Just(KRing::Q), 1 => Just(KRing::F2), 1 => Just(KRing::F2c), 2 => Just(KRing::F3)];
-        let route = prop_oneof![5 => Just(Route::Total), 3 => Just(Route::Bigraded), 2 => Just(Route::DMatrix)];
-        (dspec_strategy(maxc - 1, 2), ring, ht_strategy(), any::<bool>(), any::<u8>(), route)
+        let route = prop_oneof![10 => Just(Route::Total), 6 => Just(Route::Bigraded), 4 => Just(Route::DMatrix), 2 => any::<u16>().prop_map(Route::Compose)];
+        let small = tier.pick(6usize, 7usize);
+        route.prop_flat_map(move |route| { let d = if matches!(route, Route::Compose(_)) { dspec_strategy(small, 1) } else { dspec_strategy(maxc - 1, 2) }; (d, Just(route)) })
+            .prop_flat_map(move |(d, route)| (Just(d), ring.clone(), ht_strategy(), any::<bool>(), any::<u8>(), Just(route)))
             .prop_map(|(d, ring, (h, t), reduced, threads, route)| Case { d, ring, h, t, reduced, threads, route }).boxed()
     }
     fn cases(tier: Tier) -> u32 { tier.pick(5_000, 40_000) }
